@@ -132,6 +132,20 @@ def h_fieldsets(ctx):
     run_cell(ctx, shape, metric, x, typ, variant)
 
 
+def h_masses(ctx):
+    """a variable with discrete masses (x0 / x1 in the file header): the PIT is randomised against the file's observations, also
+    when options shorten an axis"""
+    from mc import gen
+    p = ctx.params
+    metric = ctx.choose("metric", ["pit", "pithist", "pithistdev", "pithistslope", "pithistshape", "mae", "bs"], free=True)
+    ids = [l[0] for l in gen.std_locs(3, core.seed())]
+    subset = ctx.choose("subset", [(), ("-l", "%d,%d" % (ids[0], ids[2])), ("-lx", "%d" % ids[1]), ("-o", "0,24"), ("-latrange", "40,42.5"),
+                                   ("-t", "%d,%d" % (datasets.T_FEB28_2012, datasets.T_FEB28_2012 + 2 * datasets.DAY)), ("-tod", "0"), ("-d", "20120229:20120301")], free=True)
+    typ = ctx.choose("type", ["csv", "plot"], free=True)
+    x = ctx.choose("x", [None, "location", "time"], free=True)
+    run_cell(ctx, "discrete_mass", metric, x, typ, subset + (("-r", "2") if metric == "bs" else ()))
+
+
 def h_edgetypes(ctx):
     """the non-default output types with thresholds outside the data range (all-NaN scores)"""
     p = ctx.params
@@ -197,6 +211,12 @@ def run(tier, only=None):
             "edgetypes", st, bound="full product %d metrics x %d output types x %d threshold variants x %d shapes"
             % (len(p["metrics"]), len(p["etypes"]), len(p["evariants"]), len(p["eshapes"])),
             rule="as grid; thresholds outside the data range make every score NaN", wall=time.time() - t0))
+    if only in (None, "masses"):
+        t0 = time.time()
+        st = explore.explore(h_masses, mode="full", params=p, repo_root=core.REPO)
+        subs.append(core.Sub.from_e1(
+            "masses", st, bound="full product 7 metrics (5 PIT-based) x 8 subsetting options x {csv, plot} x 3 -x on files declaring x0 and x1",
+            rule="as grid; discrete masses (PIT randomisation) with shortened axes", wall=time.time() - t0))
     if only in (None, "fieldsets"):
         t0 = time.time()
         st = explore.explore(h_fieldsets, mode="full", params=p, repo_root=core.REPO)
@@ -209,7 +229,7 @@ def run(tier, only=None):
 
 def replay(rec):
     p = params_for(rec.get("tier", "quick"))
-    h = {"fieldsets": h_fieldsets, "grid": h_grid, "variants": h_variants, "interactions": h_interactions, "edgetypes": h_edgetypes}[rec["subcheck"]]
+    h = {"masses": h_masses, "fieldsets": h_fieldsets, "grid": h_grid, "variants": h_variants, "interactions": h_interactions, "edgetypes": h_edgetypes}[rec["subcheck"]]
     ctx, _ = explore.replay(h, rec["choices"], rec.get("labels"), params=p, repo_root=core.REPO)
     want = rec["signature"][1]
     return [v.locus for v in ctx.violations if v.locus == want]
